@@ -31,9 +31,33 @@ def eqv(a, b):
     return a == b
 
 
+def _safe_repr(v, depth=0):
+    """repr() that survives ints beyond the int-to-str digit limit"""
+    if isinstance(v, int) and not isinstance(v, bool):
+        try:
+            return repr(v)
+        except ValueError:
+            return '<int of %d bits>' % v.bit_length()
+    if depth > 6:
+        return '...'
+    if isinstance(v, list):
+        return '[%s]' % ', '.join(_safe_repr(x, depth + 1) for x in v)
+    if isinstance(v, dict):
+        return '{%s}' % ', '.join('%s: %s' % (_safe_repr(k, depth + 1), _safe_repr(x, depth + 1)) for k, x in v.items())
+    kw = getattr(v, '_kw', None)
+    if isinstance(kw, dict):
+        return '%s(%s)' % (type(v).__name__, ', '.join('%s=%s' % (k, _safe_repr(x, depth + 1)) for k, x in kw.items()))
+    try:
+        return repr(v)
+    except Exception as e:     # noqa
+        return '<unreprable %s>' % type(e).__name__
+
+
 def show(v):
     try:
         return repr(v)[:300]
+    except ValueError:
+        return _safe_repr(v)[:300]
     except Exception as e:     # noqa
         return '<unreprable %s>' % type(e).__name__
 
